@@ -112,6 +112,10 @@ class RecFile:
 
     def __init__(self, s, text=False):
         self.s, self.text, self.calls = s, text, []
+        if text:
+            # like a real text file (TextIOWrapper) it has an underlying binary stream; the file the application handed over is THIS
+            # object, with its own encoding: what reaches .buffer directly has by-passed it (recorded as a foreign write)
+            self.buffer = _Underlying(self)
 
     def write(self, data):
         if self.text and isinstance(data, bytes):
@@ -129,6 +133,19 @@ class RecFile:
         self.s.yield_point(("file.flush", 0))
         st = self.s.me()
         self.calls.append(["flush", st.name if st else "main", ""])
+
+
+class _Underlying:
+    def __init__(self, owner):
+        self.owner = owner
+
+    def write(self, data):
+        st = self.owner.s.me()
+        self.owner.calls.append(["write", st.name if st else "main", "<<written to .buffer, by-passing the text file>> " + repr(data[:60])])
+        return len(data)
+
+    def flush(self):
+        pass
 
 
 def run_filedest(sc, chooser):
